@@ -112,6 +112,18 @@ def tasks(tier):
                    max_unknown=None, before_sleep=hd if e != "deco" else "policy", sleeper=hd if e != "deco" else "policy",
                    callable_kind="stateful")
         out.append({"family": "protocol-stateful-callables", "cfg": cfg, "entry": e, "bound": 0})
+    # a circuit breaker is attached: DEFER through the Policy layer still reports the delay
+    BRKC = {"threshold": 3, "window": 8, "recovery": 2, "trip_on": ["T", "U", "P"]}
+    for e in ["Policy.execute", "AsyncPolicy.execute", "RetryPolicy.execute", "Policy.call", "AsyncPolicy.call"]:
+        cfg = dict(M=3, alphabet=["x:T", "ok", "r:T"], handler="call", handler_free=True,
+                   max_unknown=None, breaker=BRKC, before_sleep="call", sleeper="call",
+                   strat_menu=[1, 3], strat_free=True)
+        out.append({"family": "protocol-with-breaker", "cfg": cfg, "entry": e, "bound": 0})
+    # callbacks that are callable objects which also happen to have an attribute called "sleep"
+    for hd, e in itertools.product(["policy", "call"], SYNC + ASYNC):
+        cfg = dict(M=3, alphabet=["x:T", "ok", "r:T"], handler=hd, handler_free=True, max_unknown=None,
+                   before_sleep=hd, sleeper=hd, callable_kind="clocklike")
+        out.append({"family": "protocol-clocklike-callables", "cfg": cfg, "entry": e, "bound": 0})
     # delays that are not whole microseconds: DEFER reports exactly the computed delay
     for e in SYNC + ASYNC:
         cfg = dict(M=3, alphabet=["x:T", "ok", "r:T"], handler="call", handler_free=True,
@@ -138,6 +150,8 @@ def monitor(w, cfg):
     for r in w.trace:
         if r[0] == "overlap":
             v.append(("c16.sleep-sequence", r[1]))
+        elif r[0] == "wrong_entry":
+            v.append(("c16.callback-identity", r[1]))
         elif r[0] == "copied_callback":
             v.append(("c16.callback-identity", f"the library called a copy of the caller's "
                                                f"callback object ({r[1]}), not the object itself"))
